@@ -61,6 +61,25 @@ Theorem c16_flush_enabled : forall c evs, evs_wf evs ->
 Proof. exact flush_enabled. Qed.
 Print Assumptions c16_flush_enabled.
 
+(* The timer invariant behind it, for every event sequence including responses that drop partitions from the buffer:
+   a non-empty buffer with Flush.Frequency > 0 has its timer armed; once it has fired the hand-off is enabled. *)
+Theorem c16_timer_armed : forall c evs, evs_wf evs ->
+  let s := fst (run c binit evs) in
+  is_empty (b_buf s) = false -> c_flush_frequency c > 0 ->
+  b_armed s = true /\ (b_fired s = true -> enabled s EvHandOff = true).
+Proof. exact timer_armed. Qed.
+Print Assumptions c16_timer_armed.
+
+(* After a response has taken partitions out of a waiting buffer, what is left — even if now below every count / byte
+   trigger — is still flushed: hand-off enabled, or timer pending and its firing enables the hand-off. *)
+Theorem c16_flush_after_drop : forall c evs drops rp, evs_wf evs -> c_flush_frequency c > 0 ->
+  let s := fst (run c binit (evs ++ [EvResponse drops rp])) in
+  is_empty (b_buf s) = false ->
+  enabled s EvHandOff = true \/
+  (enabled s EvTimer = true /\ enabled (fst (step c s EvTimer)) EvHandOff = true).
+Proof. exact flush_after_drop. Qed.
+Print Assumptions c16_flush_after_drop.
+
 (* ---- the model functions equal the definitions regenerated from the sources (decgen golden coq/Gen/DecC16.v) ---- *)
 Theorem c16_tie_is_at_least : forall v o, Model.is_at_least v o = DecC16.is_at_least (vlist v) (vlist o).
 Proof. exact tie_is_at_least. Qed.
